@@ -17,15 +17,16 @@ type Val struct {
 
 // Env is the evaluation context of a contract expression.
 type Env struct {
-	vc    *VC
-	st    *State // "now"
-	old   *State // entry state for old()
-	vars  map[string]Val
-	pkg   *types.Package
-	bound int // >0 while under a quantifier
-	seen  func(k Val) (string, error)
-	depth int
-	trig  *[]string // triggers collected while compiling the body of the innermost quantifier
+	vc     *VC
+	st     *State // "now"
+	old    *State // entry state for old()
+	vars   map[string]Val
+	pkg    *types.Package
+	bound  int // >0 while under a quantifier
+	seen   func(k Val) (string, error)
+	depth  int
+	trig   *[]string // triggers collected while compiling the body of the innermost quantifier
+	iterSt *State    // explicit loop-head state for iter() (loop 'each' clauses); nil: innermost loop of the current block
 }
 
 func (e *Env) with(name string, v Val) *Env {
@@ -546,6 +547,9 @@ func (env *Env) call(x *ECall) Val {
 			}
 		}
 		return n.c(x.Args[0])
+	case "nsends":
+		// number of channel sends executed so far by the function under contract itself
+		return mathInt(vc.heapGet(env.st, "N_send", "Int"))
 	case "ncalls":
 		// number of calls of the named function executed so far by the function under contract itself
 		if len(x.Args) != 1 {
@@ -554,13 +558,17 @@ func (env *Env) call(x *ECall) Val {
 		return mathInt(vc.heapGet(env.st, "N_"+sanitize(x.Args[0].String()), "Int"))
 	case "iter":
 		// the value of the expression at the head of the innermost enclosing loop (start of the current iteration)
-		if env.st.iter == nil {
-			cfail("iter() outside a loop")
-		}
 		if len(x.Args) != 1 {
 			cfail("iter() takes one argument")
 		}
-		return env.at(env.st.iter).c(x.Args[0])
+		its := env.iterSt
+		if its == nil {
+			its = vc.iterState()
+		}
+		if its == nil {
+			cfail("iter() outside a loop")
+		}
+		return env.at(its).c(x.Args[0])
 	case "has":
 		return boolVal(vc.resHas(env.st, arg(0).T, arg(1).T))
 	case "rv":
@@ -753,6 +761,23 @@ func (vc *VC) typeInvOf(t types.Type) *TypeInv {
 		return nil
 	}
 	return vc.cs.TypeInvs[n.Obj().Pkg().Name()+"."+n.Obj().Name()]
+}
+
+// iterState is the state at the head of the innermost loop whose body contains the block being executed.
+func (vc *VC) iterState() *State {
+	var best *loopInfo
+	for _, li := range vc.loops {
+		if li.headState == nil || !li.body[vc.curBlock] {
+			continue
+		}
+		if best == nil || len(li.body) < len(best.body) {
+			best = li
+		}
+	}
+	if best == nil {
+		return nil
+	}
+	return best.headState
 }
 
 func (vc *VC) cardFun(ks string) string {
